@@ -34,6 +34,11 @@ def comp_lattice(seed):
     return out
 
 
+def lat_index(ai, si, ti, ci):
+    """index into comp_lattice of (AMPS[ai], SHAPES[si], THETAS[ti], CENTRES[ci])"""
+    return ((ai * len(SHAPES) + si) * len(THETAS) + ti) * len(CENTRES) + ci
+
+
 def pixel_sets():
     full = np.ones(GRID, dtype=bool)
     masked = full.copy()
@@ -57,8 +62,14 @@ def cases(tier, seed):
         yield "n1", dict(ci=ci)
     # n = 2: pairs of (different) lattice tuples, all pairs of subsets
     pairs = [(0, 27), (13, 58), (31, 4), (45, 22), (8, 50), (59, 17)]
+    # pairs that SHARE parameter values (psf-shaped or priorized components share shape and position angle): same theta
+    # only; same theta and shape; same everything but the centre; same theta = 0 with swapped shape
+    pairs += [(lat_index(0, 0, 1, 0), lat_index(1, 1, 1, 1)), (lat_index(0, 0, 2, 0), lat_index(2, 0, 2, 1)),
+              (lat_index(0, 0, 3, 0), lat_index(0, 0, 3, 1)), (lat_index(1, 0, 0, 0), lat_index(0, 1, 0, 1))]
     if tier != "quick":
         pairs += [(2, 41), (19, 36), (55, 10), (24, 7), (38, 53), (12, 29)]
+        pairs += [(lat_index(2, 1, 4, 1), lat_index(2, 1, 4, 0)), (lat_index(1, 1, 2, 0), lat_index(0, 0, 2, 1)),
+                  (lat_index(0, 1, 1, 0), lat_index(1, 1, 0, 1)), (lat_index(2, 0, 0, 1), lat_index(2, 1, 3, 0))]
     for (a, b) in pairs:
         for m0 in range(64):
             yield "n2", dict(a=a, b=b, m0=m0)
@@ -66,6 +77,7 @@ def cases(tier, seed):
         for n in (3, 4):
             for k, start in enumerate((0, 11, 23, 37)):
                 yield "nk", dict(n=n, start=start)
+                yield "nk", dict(n=n, start=start, share=True)
 
 
 def mask_bits(m):
@@ -205,6 +217,8 @@ def ev_nk(case, ctx):
     for i in range(n):
         c = lat[(case["start"] + 7 * i) % len(lat)]
         comps.append((c[0], 2.5 + 2.4 * (i % 2) + 0.3 * i, 2.8 + 2.1 * (i // 2) + 0.2 * i, c[3] * 0.6, c[4] * 0.6, c[5]))
+    if case.get("share"):       # psf-shaped components: one shape and position angle for all of them
+        comps = [(c[0], c[1], c[2], comps[0][3], comps[0][4], comps[0][5]) for c in comps]
     for combo in itertools.product(range(4), repeat=n):
         free = [mask_bits(STRUCT[k]) for k in combo]
         if not any(any(f) for f in free):
